@@ -296,6 +296,9 @@ TARGETS = {'T17': {'file': 'sr/coding.py', 'build': build_T17}}
 # pydicom's own `Code` (translated, not trusted): /venv/.../pydicom/sr/coding.py and _snomed_dict.py
 def _pydicom_dir():
     import importlib.util
+    import os
+    if os.environ.get('HDV_PYDICOM_SR_DIR'):      # sensitivity tests of the tie only: a scratch copy of pydicom/sr
+        return os.environ['HDV_PYDICOM_SR_DIR']
     spec = importlib.util.find_spec('pydicom')
     if spec is None or not spec.submodule_search_locations:
         raise Unsupported('pydicom not importable')
